@@ -361,6 +361,9 @@ func c16RunSyncOnce(lens []int, pongAt, pingAt int) (obs, pobs, oracle string, o
 	if !ok {
 		return "S=?disconnected", "P=?", "", 0
 	}
+	if time.Since(t0) > time.Hour {
+		return "S=?unstamped", "P=?", "lastwrite-unstamped: the registration lines were written but lastWrite is still unset: every rate call forgives everything", 0
+	}
 	tok := strings.Repeat("k", 150)
 	var kaMu sync.Mutex
 	kaHeld, kaSeen := 0, 0
@@ -694,7 +697,9 @@ func c16RunWire(c Case) Result {
 	res := Result{}
 	for i := range c {
 		res.Obs += obs[i] + "|"
-		if orc[i] != "" && res.Oracle == "" {
+		// one oracle line per case: anything else takes precedence over the class of the
+		// stale-lastWrite finding, so that a known finding can never hide another failure
+		if orc[i] != "" && (res.Oracle == "" || strings.HasPrefix(res.Oracle, "tight-burst-unthrottled:")) {
 			res.Oracle = orc[i]
 		}
 		if sigs[i] != "" {
